@@ -241,7 +241,10 @@ PROPS["C15"] = dict(
                "get_by_cpuset over every subset are compared with a partition reference model.",
     technique="explicit-state BFS over cpukinds API histories of the real library against a partition reference model",
     design_ref="DESIGN.md 5 (C15)",
-    stages=[simple("kinds", "c15_cpukinds", parts=32, deadline={"quick": 120, "thorough": 3000})],
+    stages=[simple("kinds", "c15_cpukinds", parts=32, deadline={"quick": 120, "thorough": 3000}),
+            # the same exploration one step shallower from a root loaded with NO_CPUKINDS: kinds registered by the user are live all the same
+            simple("flagged", "c15_cpukinds", parts=16, deadline={"quick": 120, "thorough": 3000},
+                   args={"quick": ["--rootflags", "nocpukinds"], "thorough": ["--rootflags", "nocpukinds"]})],
     explanation="register(S in all non-empty subsets + empty + NULL + a PU outside the topology, forced efficiency in {-1,0,1,2}, 5 info variants, flags in {0,1}), "
                 "restrict to every proper subset, switch-to-dup, switch-to-XML-reload; states deduplicated on the reference partition.",
     bounds={"quick": "4 PUs, depth 3 (full (efficiency, infos) product at depth 1, a covering diagonal deeper)", "thorough": "5 PUs, depth 3"},
@@ -429,7 +432,7 @@ PROPS["C17"] = dict(
                "shared topology, per-thread result equality with the single-threaded run, deadlock detection.",
     technique="stateless model checking of the implementation under a controlled scheduler with iterative preemption bounding (CHESS style), scheduling points from mutex interposition and MMU traps on library globals; vector-clock race detector",
     design_ref="DESIGN.md 5 (C17), 2.6",
-    stages=[_c17_stage("readers", 16, {"quick": 240, "thorough": 3000}), _c17_stage("independent", 10, {"quick": 300, "thorough": 6000})],
+    stages=[_c17_stage("readers", 16, {"quick": 240, "thorough": 3000}), _c17_stage("independent", 21, {"quick": 300, "thorough": 6000})],
     explanation="A reader that stores into the shared topology races with every other reader whatever the schedule, so the MMU check decides the "
                 "topology part independently of the bound; schedules matter for the process-wide state (component registry, cached environment "
                 "variables), which is where the scheduling points are.",
